@@ -387,6 +387,11 @@ func (t *Tree) internalDelete(subpath []string, condition func(interface{}) bool
 			}
 			return len(t.leafBranch.(branch)) == 0, allLeaves
 		default:
+			if len(subpath) != 0 {
+				// The glob path continues below this leaf, so the leaf does not
+				// match, consistent with Query.
+				return false, nil
+			}
 			if condition(t.leafBranch) {
 				// The second parameter is an empty path that will be filled as recursion
 				// unwinds for this leaf that will be deleted in its parent.
